@@ -407,9 +407,38 @@ func T1(p *load.Program, r *report.Report) {
 	// ---- CRC check and syntax header in the callers ---------------------------------------------
 	var crcChecked IDSet
 	crcFn := lookupFunc(p, "computeCRC32")
+	// computeCRC32 itself, or a package function that calls it (the comparison moved into a helper; that the helper lets only a
+	// matching CRC through is rule C09a's part)
+	crcReach := map[*types.Func]bool{}
+	if crcFn != nil {
+		crcReach[crcFn] = true
+		for round := 0; round < 3; round++ {
+			for _, f := range p.Files {
+				if p.IsTestFile(f.Pos()) {
+					continue
+				}
+				for _, d := range f.Decls {
+					fd, ok := d.(*ast.FuncDecl)
+					if !ok || fd.Body == nil {
+						continue
+					}
+					self, _ := p.Info.Defs[fd.Name].(*types.Func)
+					if self == nil || crcReach[self] || fd.Name.Name == "parsePSISection" {
+						continue
+					}
+					ast.Inspect(fd.Body, func(x ast.Node) bool {
+						if c, ok := x.(*ast.CallExpr); ok && crcReach[calleeOf(p, c)] {
+							crcReach[self] = true
+						}
+						return true
+					})
+				}
+			}
+		}
+	}
 	okCrcTrace := t.traceAll("parsePSISection", t.qf, func(id int, nodes []ast.Node) {
 		for _, c := range reachedCalls(nodes) {
-			if f := calleeOf(p, c); f != nil && f == crcFn {
+			if f := calleeOf(p, c); f != nil && crcReach[f] {
 				crcChecked[id] = true
 			}
 		}
